@@ -60,6 +60,9 @@ func closureBinding(fv *ssa.FreeVar) ssa.Value {
 	return nil
 }
 
+// FreeVarBinding is the value bound to fv at the unique MakeClosure site of its function (nil if not unique).
+func FreeVarBinding(fv *ssa.FreeVar) ssa.Value { return closureBinding(fv) }
+
 // singleStore returns the unique value stored to alloc a in its function (ignoring stores in
 // closures), or nil if there are zero or several stores, or if a closure may write it.
 func singleStore(a *ssa.Alloc) ssa.Value {
